@@ -30,6 +30,10 @@ InodeP cloneInode(const InodeP& in) {
 }
 } // namespace
 
+static std::function<size_t()> g_freadChunk;
+size_t freadChunk() { return g_freadChunk ? g_freadChunk() : 0; }
+void setFreadChunk(std::function<size_t()> f) { g_freadChunk = std::move(f); }
+
 FS& fs() {
   if (!g_fs) g_fs.reset(new FS());
   return *g_fs;
